@@ -45,9 +45,10 @@ CASES = [
     ("ImprovedInstantMessage", U0 + U1 + b"\x00" + U1 + b"\x01\x00\x00\x00" + U0 + bytes(12) + b"\x00\x00" + U0 +
      b"\x00\x00\x00\x00" + b"\x02a\x00" + b"\x01\x00\x00"),   # ... then BinaryBucket (Variable 2) + optional EstateBlock
     ("AgentAlertMessage", U1 + b"\x01"),                 # Low; small datagram with a text field (Message, Variable 1)
+    ("ViewerFrozenMessage", b""),                        # Low; a single BOOL: every byte value 0..255 of a BOOL field
 ]
 # symbolic body lengths explored per case (each is a fork; chosen around the exact-consumption boundaries)
-LENS = [(0, 1, 5, 6), (0, 3, 7, 8), (0, 3, 4, 5), (0, 1, 5, 6), (0, 2, 3, 7), (0, 1, 3, 4)]
+LENS = [(0, 1, 5, 6), (0, 3, 7, 8), (0, 3, 4, 5), (0, 1, 5, 6), (0, 2, 3, 7), (0, 1, 3, 4), (0, 1, 2)]
 FLAGCAT = [0x00, 0x50, 0x6F, 0x1F, 0x80, 0x90]     # plain: none / RELIABLE+ACK / all-but-ACK+junk / ACK+junk ; zero-coded: -/ACK
 
 
@@ -145,7 +146,7 @@ def counts_small(case, body) -> bool:
     return True
 
 
-_PRE = ["0 <= case < 6", "0 <= fl < 4", "len(pid) == 4", "len(extra) <= 2", "len(body) in LENS[case]", "len(tail) == 5",
+_PRE = ["0 <= case < 7", "0 <= fl < 4", "len(pid) == 4", "len(extra) <= 2", "len(body) in LENS[case]", "len(tail) == 5",
         "0 <= tl <= 2", "counts_small(case, body)"]
 _RAISES = ()
 
@@ -163,7 +164,7 @@ def accept(deser, d):
               "symbolic id, extra <= 2, body <= 3 bytes (the body is copied, not read), ack tail of 0/1/5 symbolic bytes incl. inconsistent counts) "
               "re-encoding yields exactly the arriving bytes", covers=COVERS)
 def untouched_identity(case: int, fl: int, pid: bytes, extra: bytes, body: bytes, tail: bytes, tl: int, peek: bool) -> bool:
-    case, fl = small(case, 0, 5), small(fl, 0, 3)
+    case, fl = small(case, 0, 6), small(fl, 0, 3)
     tmpl, flags, d, extra_c = build(case, fl, pid, extra, body, tail, tl)
     deser = UDPMessageDeserializer(settings=LAZY)
     msg = accept(deser, d)
@@ -182,7 +183,7 @@ def untouched_identity(case: int, fl: int, pid: bytes, extra: bytes, body: bytes
               "parsing succeeds the re-encoded datagram decodes to an equal message",
          covers=COVERS)
 def parsed_identity(case: int, fl: int, pid: bytes, extra: bytes, body: bytes, tail: bytes, tl: int, order: int) -> bool:
-    case, fl, order = small(case, 0, 5), small(fl, 0, 3), small(order, 0, 2)
+    case, fl, order = small(case, 0, 6), small(fl, 0, 3), small(order, 0, 2)
     tmpl, flags, d, extra_c = build(case, fl, pid, extra, body, tail, tl)
     deser = UDPMessageDeserializer(settings=EAGER if order == 2 else LAZY)
     try:
@@ -206,7 +207,7 @@ def parsed_identity(case: int, fl: int, pid: bytes, extra: bytes, body: bytes, t
               "the failed parse attempt (lazy .blocks access raised), also after a second failed attempt",
          covers=COVERS)
 def failed_parse_still_forwardable(case: int, fl: int, pid: bytes, extra: bytes, body: bytes, tail: bytes, tl: int) -> bool:
-    case, fl = small(case, 0, 5), small(fl, 0, 3)
+    case, fl = small(case, 0, 6), small(fl, 0, 3)
     tmpl, flags, d, _ = build(case, fl, pid, extra, body, tail, tl)
     deser = UDPMessageDeserializer(settings=LAZY)
     msg = accept(deser, d)
@@ -294,7 +295,7 @@ def zerocoded_small_probe(pid: bytes, body: bytes, parse: bool) -> bool:
 
 
 EVIDENCE = {
-    "bounds": "count/length-prefix bytes inside the symbolic body restricted to {0..3, 255 / 65535}; 5 templates (Fixed/Low/High frequency; Variable, Multiple, optional trailing block, text heuristics), 4+2 flag "
+    "bounds": "count/length-prefix bytes inside the symbolic body restricted to {0..3, 255 / 65535}; 7 templates (Fixed/Low/High frequency; Variable, Multiple, optional trailing block, text heuristics, a lone BOOL), 4+2 flag "
               "patterns incl. unknown low bits, packet id 4 symbolic bytes, extra 0..2 symbolic bytes, body 0..6 symbolic "
               "bytes after a concrete prefix (zero-coded: 0..4), ack tail of 0/1/5 symbolic bytes (so also inconsistent ack "
               "counts), inspection order {never, header, lazy, lazy twice, eager}",
@@ -308,11 +309,11 @@ _CN = [c[0] for c in CASES]
 # quick tier: the two small-datagram templates (PacketAck: Fixed frequency + Variable block; StartPingCheck: High
 # frequency); the larger datagrams cost seconds per path and run in the thorough tier only.
 _Q = (0, 3)
-shard(untouched_identity, "case", range(6), _CN, globals(), quick=_Q)
-for _ci, _w in enumerate(shard(parsed_identity, "case", range(6), _CN, globals(), quick=(0, 3, 5))):
-    # quick: StartPingCheck lazy, AgentAlertMessage (text field) lazy; everything else thorough
-    _q = {3: (0,), 5: (0,)}.get(_ci, ())
+shard(untouched_identity, "case", range(7), _CN, globals(), quick=_Q)
+for _ci, _w in enumerate(shard(parsed_identity, "case", range(7), _CN, globals(), quick=(0, 3, 5, 6))):
+    # quick: StartPingCheck lazy, AgentAlertMessage (text field) lazy, ViewerFrozenMessage (BOOL) lazy; rest thorough
+    _q = {3: (0,), 5: (0,), 6: (0,)}.get(_ci, ())
     shard(_w, "order", range(3), ["lazy", "lazy_twice", "eager"], globals(), quick=_q)
-shard(failed_parse_still_forwardable, "case", range(6), _CN, globals(), quick=_Q)
+shard(failed_parse_still_forwardable, "case", range(7), _CN, globals(), quick=_Q)
 for _w in shard(zerocoded_identity, "case", range(4), _CN[:4], globals(), quick=_Q):
     shard(_w, "order", range(2), ["never_parsed", "parsed"], globals(), quick=())      # thorough only
